@@ -437,6 +437,11 @@ func (k *updatingKeyPair) unprotect(pkt []byte, pnumOff int, pnumMax packetNumbe
 				k.updating = true
 				k.minSent = maxPacketNumber
 				k.minReceived = pnum
+				// Don't follow the peer's update with one of our own
+				// as soon as this one completes: the peer may still be
+				// waiting for the acknowledgement that completes its
+				// side and would be unable to read the next phase.
+				k.updateAfter += (1 << 22)
 			} else {
 				k.minReceived = min(pnum, k.minReceived)
 			}
